@@ -162,5 +162,43 @@ theorem processReportGen_eq (s : Sess) (t : TaskSpec) (r : Raised)
       runRAct, isInst, excSubclass, recordStatesGen_eq, taskSet, outToOutcome, stopCmp, hrs] <;>
     (try (cases cfg.maxFail <;> rfl))
 
+/-! ### pytask_execute_task, teardown, the protocol's `try` -/
+
+/-- After a setup that raised nothing, every predecessor of the task and the task's module have a state. -/
+theorem setup_none_preds_exist (s : Sess) (t : TaskSpec) (h : setupChain P g cfg s t Generated.setupOrder = .none) :
+    ∀ v ∈ g.preds (tv t.id) ++ [tv t.id], (stateOf P s.w v).isSome = true := by
+  have hc := ((setupChain_none_iff s t).1 h).2
+  intro v hv
+  cases hst : stateOf P s.w v with
+  | some _ => rfl
+  | none =>
+    have : scan P g s.w t.id cfg.force (neighbours g t.id) = .missing :=
+      (scan_missing_iff s.w t.id cfg.force).2 ⟨v, hv, hst⟩
+    rw [this] at hc; cases hc
+
+theorem runPhasesGen_eq (s : Sess) (t : TaskSpec) : runPhasesGen F P g cfg s t = runPhases F P g cfg s t := by
+  unfold runPhasesGen runPhases
+  simp only [protocolPhases, runPhaseList]
+  rw [setupChainGen_eq]
+  cases hsc : setupChain P g cfg s t Generated.setupOrder
+  case none =>
+    have hex := setup_none_preds_exist s t hsc
+    have hex' : ∀ v ∈ g.preds (tv t.id) ++ [tv t.id],
+        stateOf P { fs := (runBody F t s.w.fs).1, db := s.w.db } v ≠ none := by
+      intro v hv hn
+      have := stateOf_mono (P := P) (w := s.w) (w' := { fs := (runBody F t s.w.fs).1, db := s.w.db })
+        (fun n hn => runBody_fs_mono t s.w.fs n hn) v (hex v hv)
+      rw [hn] at this; cases this
+    have hv1 : ¬ ((∃ x, x ∈ g.preds (tv t.id) ∧ stateOf P { fs := (runBody F t s.w.fs).1, db := s.w.db } x = none) ∨
+        stateOf P { fs := (runBody F t s.w.fs).1, db := s.w.db } (tv t.id) = none) := by
+      rintro (⟨x, hx, hn⟩ | hn)
+      · exact hex' x (by simp [hx]) hn
+      · exact hex' _ (by simp) hn
+    simp [executeSteps, runExecSteps, excToRaised, teardownChecks, runTeardown]
+    by_cases hd : cfg.dry = true <;> simp [hd]
+    by_cases hr : (runBody F t s.w.fs).snd = true <;> simp [hr, hv1]
+    by_cases hm : ∃ x, x ∈ t.prods ∧ lookup (runBody F t s.w.fs).fst x = none <;> simp [hm]
+  all_goals simp
+
 end EngineGen
 end Pytask
